@@ -80,6 +80,8 @@ pub struct Cfg {
     pub reread_held: bool,
     /// Offer CloneHeld (once per history).
     pub clone_held: bool,
+    /// Offer EditHeld (in-place edits of a handed-out pool buffer; at most two per history).
+    pub edit_held: bool,
     /// Explicit closes stay in flight until the explorer completes them.
     pub hold_close: bool,
     /// The pool has already performed this many releases (multiple of the pool size).
@@ -115,6 +117,7 @@ impl Cfg {
             sqpoll: false,
             zc_error_notif: true,
             hold_close: false,
+            edit_held: false,
             clone_held: false,
             reread_held: false,
             held_letters: false,
@@ -147,6 +150,8 @@ pub enum Action {
     RereadHeld(usize, u8),
     /// `try_clone` the first descriptor handed out by operation `i`; the duplicate joins it.
     CloneHeld(usize),
+    /// Edit the first pool buffer handed out by operation `i` in place: 0 remove(..1), 1 truncate(1), 2 remove(1..), 3 clear.
+    EditHeld(usize, u8),
 }
 
 /// Completion outcome letters.
@@ -271,6 +276,7 @@ pub struct OpsWorld {
     pool_bufs: Vec<(usize, u32)>,
     lost_reported: bool,
     cloned: bool,
+    edits_done: u8,
 }
 
 fn v(prop: &str, sig: &str, msg: String) -> Violation {
@@ -343,6 +349,7 @@ impl OpsWorld {
             pool_bufs: Vec::new(),
             lost_reported: false,
             cloned: false,
+            edits_done: 0,
         };
         BASE_FD_DIRECT.store(false, std::sync::atomic::Ordering::SeqCst);
         if w.cfg.fd_direct {
@@ -1308,6 +1315,15 @@ impl World for OpsWorld {
                 }
             }
         }
+        if self.cfg.edit_held && self.edits_done < 2 {
+            for i in 0..self.slots.len() {
+                if self.held_of(i).1.borrow().first().is_some_and(|b| b.len() >= 2) {
+                    for e in 0..4u8 {
+                        v.push((Action::EditHeld(i, e), if e == 0 { 0 } else { 1 }));
+                    }
+                }
+            }
+        }
         if self.cfg.reread_held && self.created < self.cfg.max_ops + 2 {
             for i in 0..self.slots.len() {
                 if !self.held_of(i).1.borrow().is_empty() {
@@ -1381,6 +1397,38 @@ impl World for OpsWorld {
                     held: Default::default(),
                     prefix: Vec::new(),
                 });
+            }
+            Action::EditHeld(i, e) => {
+                self.edits_done += 1;
+                let (_, bufs) = self.held_of(*i);
+                let mut g = bufs.borrow_mut();
+                let b = &mut g[0];
+                let addr_before = b.as_ptr() as usize;
+                let before = b[..].to_vec();
+                let want: Vec<u8> = match e {
+                    0 => before[1..].to_vec(),
+                    1 => before[..1].to_vec(),
+                    2 => before[..1].to_vec(),
+                    _ => Vec::new(),
+                };
+                talloc::track(|| match e {
+                    0 => b.remove(..1),
+                    1 => b.truncate(1),
+                    2 => b.remove(1..),
+                    _ => b.clear(),
+                });
+                let after = b[..].to_vec();
+                let addr_after = b.as_ptr() as usize;
+                drop(g);
+                if after != want || addr_after != addr_before {
+                    self.report("C08", "edit-moved-or-changed", format!("edit {e} of a handed-out pool buffer holding {before:02x?} at {addr_before:#x}: now {after:02x?} at {addr_after:#x}, expected {want:02x?} at the same place"));
+                }
+                // What the kernel wrote for this buffer, as the model remembers it.
+                if let Some(bid) = self.pool_bufs.iter().position(|(a, l)| addr_before >= *a && addr_before < *a + *l as usize) {
+                    for sel in self.sels.iter_mut().filter(|s| s.bid == bid as u16 && s.state == SelState::Owned) {
+                        sel.data = want.clone();
+                    }
+                }
             }
             Action::CloneHeld(i) => {
                 self.cloned = true;
